@@ -329,6 +329,10 @@ func boundaryCases() []*ProgCase {
 	env.Put("m", ref.VMap(ref.TNum, ref.TStr, ref.KV{K: ref.VNum(1), V: ref.VStr("one")}, ref.KV{K: ref.VNum(0.5), V: ref.VStr("half")}))
 	env.Put("ms", ref.VMap(ref.TStr, ref.TNum, ref.KV{K: ref.VStr("a"), V: ref.VNum(1)}))
 	env.Put("em", ref.VMap(ref.TStr, ref.TNum))
+	// host strings that are not valid UTF-8 / not valid patterns
+	for i, bad := range []string{"\xff", "a\xffb", "\xc3\x28", "ab\xe2\x82", "(", "a[", "*a", "a{2,1}", "\\"} {
+		env.Put(fmt.Sprintf("bad%d", i), ref.VStr(bad))
+	}
 	n := func(s string) *ref.E { return ref.Num(s, ref.LitValue(s)) }
 	neg := func(e *ref.E) *ref.E { return ref.CallF(ref.FPrefix, "-", e) }
 	div := func(a, b *ref.E) *ref.E { return ref.CallF(ref.FInfix, "/", a, b) }
@@ -342,6 +346,13 @@ func boundaryCases() []*ProgCase {
 	add := func(id string, e *ref.E) {
 		i++
 		out = append(out, &ProgCase{ID: "bound/" + id, Src: ref.Render(e), E: e, Env: env})
+	}
+	for bi := 0; bi < 9; bi++ {
+		b := func() *ref.E { return ref.Ident(fmt.Sprintf("bad%d", bi)) }
+		add(fmt.Sprintf("match/pattern/%d", bi), ref.Call("match", b(), ref.Str("xab\u00e9")))
+		add(fmt.Sprintf("match/pattern-self/%d", bi), ref.Call("match", b(), b()))
+		add(fmt.Sprintf("match/subject/%d", bi), ref.Call("match", ref.Str("a"), b()))
+		add(fmt.Sprintf("match/guarded/%d", bi), ref.Call("if", ref.Bool(false), ref.Call("match", b(), ref.Str("x")), ref.Bool(true)))
 	}
 	for k, ix := range idx {
 		for _, base := range []string{"xs", "e"} {
